@@ -210,7 +210,7 @@ def edge_sim(edge_path, inputs, output, true_legs):
 def random_linear_path(rng, n, complete=True, p1=0.1, p3=0.2):
     cur, path = n, []
     while cur > 1:
-        if not complete and rng.random() < 0.2:
+        if not complete and path and rng.random() < 0.15:
             break
         r = rng.random()
         k = 1 if r < p1 else (rng.randint(3, 5) if r < p1 + p3 else 2)
@@ -225,7 +225,7 @@ def random_linear_path(rng, n, complete=True, p1=0.1, p3=0.2):
 def random_ssa_path(rng, n, complete=True, p1=0.1, p3=0.2):
     alive, nxt, path = list(range(n)), n, []
     while len(alive) > 1:
-        if not complete and rng.random() < 0.2:
+        if not complete and path and rng.random() < 0.15:
             break
         r = rng.random()
         k = 1 if r < p1 else (rng.randint(3, 5) if r < p1 + p3 else 2)
@@ -455,6 +455,8 @@ def run_tree(rep, case):
     need(norm(call("ssa_to_linear", pb.ssa_to_linear, s, n)) == norm(p), "inverse_pair", "ssa_to_linear(get_ssa_path(order)) is not get_path(order)", plain(s))
 
     # prefixes = incomplete paths
+    if not case.get("prefix", True):
+        return
     rng = rng_for(cs, "prefix", kind)
     k = rng.randint(0, len(p) - 1)
     check_partial(rep, net, p[:k], "linear", set(tseq[:k]), True, "path=prefix")
@@ -590,6 +592,9 @@ def tree_cases(rep, net, ssa, cs, cls=None):
     tkey = tuple(map(tuple, ssa))
     for kind in ORDER_KINDS:
         case = {"mode": "tree", "net": nj, "ssa": ssa, "order": kind, "case_seed": cs}
+        if cls == "alltrees":
+            # the (4 extra tree builds of the) prefix monitor only for three kinds per tree
+            case["prefix"] = kind in ("none", "adversarial", "topo")
         rep.count("order_kind", kind)
         if net.N >= 4:
             rep.seen("tree_order_n4", (net.key(), tkey, kind))
@@ -640,9 +645,17 @@ def _fact(m):
 
 
 def run_shard(rep, tier, seed, shard, nshards):
+    import time
+
+    t0 = [time.time()]
+
+    def lap(name):
+        rep.count("workload_seconds_summed_over_shards", name, int(round(time.time() - t0[0])))
+        t0[0] = time.time()
+
     # -- A: (network, random tree) x all order kinds
-    dl = Deadline(budget(tier, 14, 150))
-    for k in range(budget(tier, 120, 1500)):
+    dl = Deadline(budget(tier, 12, 100))
+    for k in range(budget(tier, 200, 3000)):
         if dl.expired():
             break
         cs = f"{seed}/C10/{shard}/tree/{k}"
@@ -651,10 +664,11 @@ def run_shard(rep, tier, seed, shard, nshards):
         ssa = gen.random_ssa(rng, net.N)
         tree_cases(rep, net, ssa, cs)
 
+    lap('A_tree')
     # -- B: ALL trees of small networks x all order kinds
-    dl = Deadline(budget(tier, 10, 200))
+    dl = Deadline(budget(tier, 12, 150))
     nmax = budget(tier, 5, 6)
-    for k in range(budget(tier, 6, 24)):
+    for k in range(budget(tier, 10, 40)):
         if dl.expired():
             break
         cs = f"{seed}/C10/{shard}/all/{k}"
@@ -679,9 +693,10 @@ def run_shard(rep, tier, seed, shard, nshards):
             rep.mon("all_trees_enumerated", ntrees)
             rep.count("all_trees_networks", n)
 
+    lap('B_alltrees')
     # -- C: independently generated linear / ssa paths through the converters
-    dl = Deadline(budget(tier, 5, 60))
-    for k in range(budget(tier, 500, 6000)):
+    dl = Deadline(budget(tier, 5, 30))
+    for k in range(budget(tier, 4000, 40000)):
         if dl.expired():
             break
         cs = f"{seed}/C10/{shard}/pair/{k}"
@@ -695,9 +710,10 @@ def run_shard(rep, tier, seed, shard, nshards):
         rep.count("pair_step_sizes", ",".join(map(str, sorted({len(s) for s in path}))))
         run_case(rep, case, ("pair", n, fmt, complete, tuple(path)), n >= 4, "pair:" + fmt, sample=case)
 
+    lap('C_pair')
     # -- D: edge paths
-    dl = Deadline(budget(tier, 12, 150))
-    for k in range(budget(tier, 40, 600)):
+    dl = Deadline(budget(tier, 10, 70))
+    for k in range(budget(tier, 300, 3000)):
         if dl.expired():
             break
         cs = f"{seed}/C10/{shard}/edge/{k}"
@@ -709,9 +725,10 @@ def run_shard(rep, tier, seed, shard, nshards):
             net = gen.network(rng, 2, 12, cap=10**9)
         edge_cases(rep, net, rng, cs, tier, dl)
 
+    lap('D_edge')
     # -- E: from_path on mixed-arity / incomplete paths
-    dl = Deadline(budget(tier, 8, 90))
-    for k in range(budget(tier, 60, 900)):
+    dl = Deadline(budget(tier, 8, 40))
+    for k in range(budget(tier, 800, 8000)):
         if dl.expired():
             break
         cs = f"{seed}/C10/{shard}/mixed/{k}"
@@ -723,6 +740,7 @@ def run_shard(rep, tier, seed, shard, nshards):
         path = (random_linear_path if fmt == "linear" else random_ssa_path)(rng, net.N, complete, p1, p3)
         case = {"mode": "mixed", "net": net.to_json(), "path": [list(s) for s in path], "fmt": fmt, "case_seed": cs}
         run_case(rep, case, ("mixed", net.key(), fmt, tuple(path)), net.N >= 4, "mixed:" + net.cls, sample={"eq": net.eq(), "path": case["path"], "fmt": fmt})
+    lap("E_mixed")
 
 
 def replay(rep, v):
